@@ -13,7 +13,7 @@ from ..flow import Enumerator, RETURN, fmt
 from ..symx import Expander, TupleV
 from ..anf import R, Unsupported
 from .. import anf, fsm
-from .common import struct_ob, formula_ob, guard, last_return
+from .common import struct_ob, formula_ob, guard, last_return, U
 from . import mcmc
 from ..report import AnalysisError
 
@@ -64,11 +64,11 @@ def run(prog, tier):
         y = pcs[0].args[0].id
         d = mcmc.last_def(aw, y, pcs[0].lineno)
         stores = [n for n in ast.walk(aw) if isinstance(n, ast.Assign) and isinstance(n.targets[0], ast.Subscript)
-                  and ast.unparse(n.targets[0].value) == "self.walker_positions"]
-        ok = (d is not None and isinstance(d.value, ast.Call) and ast.unparse(d.value.func).endswith("__proposal")
-              and isinstance(d.targets[0], ast.Tuple) and ast.unparse(d.targets[0].elts[0]) == y
-              and len(stores) == 1 and ast.unparse(stores[0].value) == y)
-        why = f"posterior({y}); {y} defined by `{ast.unparse(d) if d else None}`; stored `{[ast.unparse(s) for s in stores]}`"
+                  and U(n.targets[0].value) == "self.walker_positions"]
+        ok = (d is not None and isinstance(d.value, ast.Call) and U(d.value.func).endswith("__proposal")
+              and isinstance(d.targets[0], ast.Tuple) and U(d.targets[0].elts[0]) == y
+              and len(stores) == 1 and U(stores[0].value) == y)
+        why = f"posterior({y}); {y} defined by `{U(d) if d else None}`; stored `{[U(s) for s in stores]}`"
     obs.append(struct_ob("must-pass-through", qual(c, aw), ok,
                          "the walker must evaluate and store the very point __proposal returned: " + why, rel, aw.lineno))
 
@@ -121,9 +121,9 @@ def _from_process_proposal(fn, expr, line):
         line = d.lineno
         e = mcmc.unwrap(d.value)
         hops += 1
-    if isinstance(e, ast.Call) and ast.unparse(e.func) == "self.process_proposal":
+    if isinstance(e, ast.Call) and U(e.func) == "self.process_proposal":
         return True, ""
-    return False, f"resolves to `{ast.unparse(e)}`"
+    return False, f"resolves to `{U(e)}`"
 
 
 def _slot_binding(prog, cname, slot, bounded, free):
@@ -133,13 +133,13 @@ def _slot_binding(prog, cname, slot, bounded, free):
     # if bounds is None: slot = free ; else: slot = bounded
     ok, why = False, "no `if bounds is None` switch in the constructor"
     for st in ast.walk(init):
-        if isinstance(st, ast.If) and ast.unparse(st.test) == "bounds is None":
+        if isinstance(st, ast.If) and U(st.test) == "bounds is None":
             def slot_assign(block):
-                return [ast.unparse(s.value) for s in block if isinstance(s, ast.Assign)
-                        and ast.unparse(s.targets[0]) == f"self.{slot}"]
+                return [U(s.value) for s in block if isinstance(s, ast.Assign)
+                        and U(s.targets[0]) == f"self.{slot}"]
             a, b = slot_assign(st.body), slot_assign(st.orelse)
-            bounds_set = [ast.unparse(s.value) for s in ast.walk(ast.Module(body=st.orelse, type_ignores=[]))
-                          if isinstance(s, ast.Assign) and ast.unparse(s.targets[0]) == "self.bounds"]
+            bounds_set = [U(s.value) for s in ast.walk(ast.Module(body=st.orelse, type_ignores=[]))
+                          if isinstance(s, ast.Assign) and U(s.targets[0]) == "self.bounds"]
             ok = a == [free] and b == [bounded] and len(bounds_set) >= 1 and all(
                 v == "bounds" or v.startswith("Bounds(") for v in bounds_set)
             why = f"unbounded arm: {a}; bounded arm: {b}; self.bounds <- {bounds_set}"
@@ -147,7 +147,7 @@ def _slot_binding(prog, cname, slot, bounded, free):
     fname = free.split(".")[-1]
     fc, ffn = prog.find_method(ci, fname)
     if fname == "pass_through":
-        okf = ffn is not None and [ast.unparse(s) for s in ffn.body] == [f"return {ffn.args.args[-1].arg}"]
+        okf = ffn is not None and [U(s) for s in ffn.body] == [f"return {ffn.args.args[-1].arg}"]
         ok = ok and okf
         why += f"; pass_through is identity: {okf}"
     # no other assignment of the slot anywhere
@@ -179,27 +179,27 @@ def _hmc_posterior_args(prog):
                 params = [a.arg for a in fn.args.args[1:]]
                 if d is None and arg.id in params:
                     ok, why = True, f"parameter `{arg.id}`"
-                elif d is not None and isinstance(d.value, ast.Call) and ast.unparse(d.value.func) in (
+                elif d is not None and isinstance(d.value, ast.Call) and U(d.value.func) in (
                         "self.run_leapfrog", "self.bounds.reflect_momenta", "self.bounds.reflect"):
-                    ok, why = True, f"output of {ast.unparse(d.value.func)}"
+                    ok, why = True, f"output of {U(d.value.func)}"
                 elif d is not None and arg.id == "start":
                     # the constructor re-binds `start` through type conversions only
-                    convs = [s for s in ast.walk(fn) if isinstance(s, ast.Assign) and ast.unparse(s.targets[0]) == "start"]
+                    convs = [s for s in ast.walk(fn) if isinstance(s, ast.Assign) and U(s.targets[0]) == "start"]
                     ok = all(isinstance(s.value, ast.IfExp) and not any(isinstance(n, ast.BinOp) for n in ast.walk(s.value))
                              for s in convs)
                     why = "validated start (type conversions only)"
                 elif d is not None and isinstance(d.value, ast.Call) and isinstance(d.value.func, ast.Attribute) \
-                        and d.value.func.attr == "copy" and ast.unparse(d.value.func.value) in params:
-                    ok, why = _probe_inside(fn, arg.id, ast.unparse(d.value.func.value))
+                        and d.value.func.attr == "copy" and U(d.value.func.value) in params:
+                    ok, why = _probe_inside(fn, arg.id, U(d.value.func.value))
                 else:
-                    ok, why = False, f"`{arg.id}` defined by `{ast.unparse(d) if d else None}`"
+                    ok, why = False, f"`{arg.id}` defined by `{U(d) if d else None}`"
             else:
                 arith = any(isinstance(n, ast.BinOp) for n in ast.walk(arg))
                 ok = not arith
-                why = f"argument `{ast.unparse(arg)}` applies arithmetic to a point that may lie on the boundary" if arith else ""
+                why = f"argument `{U(arg)}` applies arithmetic to a point that may lie on the boundary" if arith else ""
             out.append(struct_ob("hmc-posterior-args", construct, ok,
                                  f"posterior evaluated at a point that did not come out of the fold map: {why}{reach}",
-                                 rel, call.lineno, detail=ast.unparse(arg)))
+                                 rel, call.lineno, detail=U(arg)))
     return out
 
 
@@ -213,30 +213,30 @@ def _probe_inside(fn, name, base):
                     for t in ([n.target] if isinstance(n, ast.AugAssign) else n.targets))]
     if len(mods) != 1 or not (isinstance(mods[0], ast.AugAssign) and isinstance(mods[0].op, ast.Add)
                               and isinstance(mods[0].value, ast.Name)):
-        return False, f"probe `{name}` is modified by {[ast.unparse(m) for m in mods]}"
+        return False, f"probe `{name}` is modified by {[U(m) for m in mods]}"
     h = mods[0].value.id
-    idx = ast.unparse(mods[0].target.slice)
-    guards = [n for n in ast.walk(fn) if isinstance(n, ast.If) and ast.unparse(n.test) == "self.bounds is not None"
+    idx = U(mods[0].target.slice)
+    guards = [n for n in ast.walk(fn) if isinstance(n, ast.If) and U(n.test) == "self.bounds is not None"
               and n.lineno < mods[0].lineno]
     if len(guards) != 1:
         return False, "no `if self.bounds is not None:` block constrains the probe step"
     g = guards[0]
     if len(g.body) != 2 or not isinstance(g.body[0], ast.Assign) or not isinstance(g.body[1], ast.If):
-        return False, f"bounded arm is `{[ast.unparse(x) for x in g.body]}`"
+        return False, f"bounded arm is `{[U(x) for x in g.body]}`"
     a, flip = g.body
     okc = False
-    if ast.unparse(a.targets[0]) == h and isinstance(a.value, ast.BinOp) and isinstance(a.value.op, ast.Mult):
+    if U(a.targets[0]) == h and isinstance(a.value, ast.BinOp) and isinstance(a.value.op, ast.Mult):
         parts = [a.value.left, a.value.right]
         lit = [p for p in parts if isinstance(p, ast.Constant) and isinstance(p.value, (int, float))]
         oth = [p for p in parts if not isinstance(p, ast.Constant)]
-        okc = len(lit) == 1 and 0 < lit[0].value <= 0.5 and len(oth) == 1 and ast.unparse(oth[0]) == f"self.bounds.width[{idx}]"
-    okf = (ast.unparse(flip.test) == f"{base}[{idx}] + {h} > self.bounds.upper[{idx}]"
-           and [ast.unparse(x) for x in flip.body] == [f"{h} = -{h}"] and not flip.orelse)
-    later = [n for n in ast.walk(fn) if isinstance(n, ast.Assign) and ast.unparse(n.targets[0]) == h
+        okc = len(lit) == 1 and 0 < lit[0].value <= 0.5 and len(oth) == 1 and U(oth[0]) == f"self.bounds.width[{idx}]"
+    okf = (U(flip.test) == f"{base}[{idx}] + {h} > self.bounds.upper[{idx}]"
+           and [U(x) for x in flip.body] == [f"{h} = -{h}"] and not flip.orelse)
+    later = [n for n in ast.walk(fn) if isinstance(n, ast.Assign) and U(n.targets[0]) == h
              and g.end_lineno < n.lineno < mods[0].lineno]
     if okc and okf and not later:
         return True, "inward step of at most half the box width"
-    return False, (f"step `{ast.unparse(a)}` / flip `{ast.unparse(flip.test)}` is not the recognised containment argument "
+    return False, (f"step `{U(a)}` / flip `{U(flip.test)}` is not the recognised containment argument "
                    f"(h = c*width[i], 0<c<=1/2, flipped when {base}[i]+h exceeds the upper limit)")
 
 
@@ -250,22 +250,22 @@ def _reflect_order(c, fn, unroll):
             if node.target.id == t and isinstance(node.op, ast.Add):
                 ev.append(("DRIFT", node.lineno, ""))
             elif node.target.id == r and isinstance(node.op, ast.Mult):
-                ev.append(("FLIP", node.lineno, ast.unparse(node.value)))
+                ev.append(("FLIP", node.lineno, U(node.value)))
             elif node.target.id == r and isinstance(node.op, ast.Add):
                 for n in ast.walk(node.value):
-                    if isinstance(n, ast.Call) and ast.unparse(n.func) == "self.grad":
-                        ev.append(("GRAD", node.lineno, ast.unparse(n.args[0])))
+                    if isinstance(n, ast.Call) and U(n.func) == "self.grad":
+                        ev.append(("GRAD", node.lineno, U(n.args[0])))
                 ev.append(("KICK", node.lineno, ""))
         elif isinstance(node, ast.Assign) and isinstance(node.value, ast.Call) \
-                and ast.unparse(node.value.func) == "self.bounds.reflect_momenta" and isinstance(node.targets[0], ast.Tuple):
-            a = [ast.unparse(e) for e in node.targets[0].elts]
-            ev.append(("REFLECT", node.lineno, f"{a[0]},{a[1]}<-{ast.unparse(node.value.args[0])}"))
+                and U(node.value.func) == "self.bounds.reflect_momenta" and isinstance(node.targets[0], ast.Tuple):
+            a = [U(e) for e in node.targets[0].elts]
+            ev.append(("REFLECT", node.lineno, f"{a[0]},{a[1]}<-{U(node.value.args[0])}"))
         elif isinstance(node, ast.Return):
-            ev.append(("RET", node.lineno, ast.unparse(node.value)))
+            ev.append(("RET", node.lineno, U(node.value)))
         elif isinstance(node, (ast.Assign, ast.AugAssign)):
             tg = node.targets[0] if isinstance(node, ast.Assign) else node.target
             if any(isinstance(n, ast.Name) and n.id == t for n in ast.walk(tg)):
-                ev.append(("TWRITE", node.lineno, ast.unparse(node)))
+                ev.append(("TWRITE", node.lineno, U(node)))
         return ev
     en = Enumerator(classify, None, None, unroll=unroll)
     paths = en.function(fn)
@@ -392,7 +392,7 @@ def _fold_forms(prog):
         okw = wd.eq(up - lo)
         wtxt = f"local width = {wd}"
     else:
-        src = {ast.unparse(s.targets[0]): ast.unparse(s.value) for s in ast.walk(sb) if isinstance(s, ast.Assign)}
+        src = {U(s.targets[0]): U(s.value) for s in ast.walk(sb) if isinstance(s, ast.Assign)}
         p = [a.arg for a in sb.args.args[1:]]
         okw = (src.get("self.upper") == p[1] and src.get("self.lower") == p[0]
                and src.get("self.width") in (f"{p[1]} - {p[0]}", "self.upper - self.lower"))
@@ -409,27 +409,27 @@ def _start_validated(prog):
         rel = c.module.relpath
         ok, why = False, "no validate_start_point call on the bounded arm"
         for st in ast.walk(init):
-            if isinstance(st, ast.If) and ast.unparse(st.test) == "bounds is None":
+            if isinstance(st, ast.If) and U(st.test) == "bounds is None":
                 calls = [n for n in ast.walk(ast.Module(body=st.orelse, type_ignores=[])) if isinstance(n, ast.Call)
-                         and ast.unparse(n.func) == "self.bounds.validate_start_point"]
+                         and U(n.func) == "self.bounds.validate_start_point"]
                 if len(calls) == 1:
                     a = calls[0].args[0] if calls[0].args else next((k.value for k in calls[0].keywords if k.arg == "start"), None)
-                    ok = a is not None and ast.unparse(a) == stored
-                    why = f"validates `{ast.unparse(a) if a is not None else None}` (stored start is `{stored}`)"
+                    ok = a is not None and U(a) == stored
+                    why = f"validates `{U(a) if a is not None else None}` (stored start is `{stored}`)"
                     if cname == "EnsembleSampler":
                         loops = [l for l in ast.walk(ast.Module(body=st.orelse, type_ignores=[])) if isinstance(l, ast.For)
                                  and any(x is calls[0] for x in ast.walk(l))]
-                        ok = ok and len(loops) == 1 and ast.unparse(loops[0].iter) == "self.walker_positions" \
-                            and ast.unparse(loops[0].target) == "v"
+                        ok = ok and len(loops) == 1 and U(loops[0].iter) == "self.walker_positions" \
+                            and U(loops[0].target) == "v"
         out.append(struct_ob("start-validated", qual(c, init), ok,
                              "with bounds and a start the constructor must validate the stored start: " + why, rel, init.lineno))
     bc = prog.cls("Bounds")
     v = bc.methods.get("validate_start_point")
     ins = bc.methods.get("inside")
     ok = (v is not None and ins is not None
-          and any(isinstance(s, ast.If) and ast.unparse(s.test) == f"not self.inside({v.args.args[1].arg})"
+          and any(isinstance(s, ast.If) and U(s.test) == f"not self.inside({v.args.args[1].arg})"
                   and any(isinstance(b, ast.Raise) for b in s.body) for s in v.body)
-          and ast.unparse(last_return(ins).value) == f"((theta >= self.lower) & (theta <= self.upper)).all()")
+          and U(last_return(ins).value) == f"((theta >= self.lower) & (theta <= self.upper)).all()")
     out.append(struct_ob("start-validated", qual(bc, v), ok,
                          "validate_start_point must raise unless lower <= start <= upper for every coordinate", UTIL, v.lineno))
     return out
@@ -448,7 +448,7 @@ def _limit_fsm(prog):
 
     def op_set(s):
         # the valid branch (lower < upper); the invalid branch only warns
-        return m.run(pc.methods["set_boundaries"], s, {}, choose=lambda t: True if ast.unparse(t) == "lower < upper" else None)
+        return m.run(pc.methods["set_boundaries"], s, {}, choose=lambda t: True if U(t) == "lower < upper" else None)
 
     def op_remove(s):
         return m.run(pc.methods["remove_boundaries"], s, {})
@@ -466,7 +466,7 @@ def _limit_fsm(prog):
         # a fresh object whose flags are restored from the saved state, then load's proposal selection
         var = None
         for st in load.body:
-            if isinstance(st, ast.Assign) and isinstance(st.value, ast.Call) and ast.unparse(st.value.func) == load.args.args[0].arg:
+            if isinstance(st, ast.Assign) and isinstance(st.value, ast.Call) and U(st.value.func) == load.args.args[0].arg:
                 var = st.targets[0].id
         fresh = dict(init)
         fresh["bounded"], fresh["_non_negative"] = s["bounded"], s["_non_negative"]
@@ -481,11 +481,11 @@ def _limit_fsm(prog):
 
     # ranges of the proposals, read from the code
     bp = pc.methods["boundary_proposal"]
-    honours_nn = any(isinstance(n, ast.IfExp) and "_non_negative" in ast.unparse(n.test)
-                     and ast.unparse(n.body).replace(" ", "") in ("max(self.lower,0.0)", "max(0.0,self.lower)", "max(self.lower,0)")
+    honours_nn = any(isinstance(n, ast.IfExp) and "_non_negative" in U(n.test)
+                     and U(n.body).replace(" ", "") in ("max(self.lower,0.0)", "max(0.0,self.lower)", "max(self.lower,0)")
                      for n in ast.walk(bp))
     ap = pc.methods["abs_proposal"]
-    abs_nonneg = any(isinstance(r, ast.Return) and isinstance(r.value, ast.Call) and ast.unparse(r.value.func) == "abs"
+    abs_nonneg = any(isinstance(r, ast.Return) and isinstance(r.value, ast.Call) and U(r.value.func) == "abs"
                      for r in ast.walk(ap))
     bad = []
     for k, (s, trace) in seen.items():
